@@ -92,3 +92,14 @@ Theorem C07_finalizer_after_db_delete : forall c acts n,
   In n (g_finreleased (run c acts)) -> In n (g_dbdeletes (run c acts)).
 Proof. exact finalizer_after_db_delete. Qed.
 Print Assumptions C07_finalizer_after_db_delete.
+
+(* The step monitor evaluated on the implementation's projected states (a run object appears only while its trial is not
+   completed, disappears only when it is) holds on the model's own projected states for every history without teardown and
+   without external deletion of run objects; the other clauses of the C07 monitor (no duplicate creation, DB deletion before
+   the finalizer release) are the theorems C07_created_once and C07_finalizer_after_db_delete themselves, read on the logs. *)
+From KV Require Proofs.MonSound Corr.WorldMon.
+Theorem C07_monitor_sound : forall c acts,
+  valid_cfg c -> job_safe_acts acts ->
+  WorldMon.all_steps WorldMon.job_step (WorldC.project (init c)) (MonSound.msteps (init c) acts) = true.
+Proof. exact MonSound.job_monitor_sound. Qed.
+Print Assumptions C07_monitor_sound.
